@@ -78,6 +78,15 @@ CLAIMED["C10"] = ("model_checking", CLIENT_TECH,
     "one callback per QoS 2 handshake, PUBREC for every QoS 2 PUBLISH, PUBCOMP for every PUBREL (message released before it is written), PUBACK only after an accepting callback, "
     "no acknowledgement and a closed connection after a refusing callback.", CLIENT_NOTE, "DESIGN.md section 5 C10")
 
+CLAIMED["C17"] = ("model_checking",
+    "TLA+ specification Service.tla (command queue, subscription table, supervisor phases, futures; the client abstracted to its packets) bound to the real client.Service by trace "
+    "validation: Dialer into a scripted broker that fails on command, wrapped session, callbacks and a waiter per future; every trace checked by TLC (ServiceTrace.tla)",
+    "Failure schedules x API sequences x Start/Stop from several goroutines: commands are carried out first-in first-out, after every reconnect the resubscription is exactly the "
+    "current subscription set, futures resolve truthfully (completed only after the acknowledgement, cancelled when a command cannot be handed on or is displaced), survive reconnects, "
+    "Stop returns, cancels everything pending when asked to, and the service can be restarted.",
+    "Trusted: TLC; harness ordering; scripted broker; the silent enqueue step between an API call and its return; rejected scenarios are re-driven slowly. Bounded scenario family.",
+    "DESIGN.md section 5 C17")
+
 PENDING_REASON = "check not built yet in this round (planned, see DESIGN.md section 5)"
 
 
